@@ -34,6 +34,8 @@ def plan(tier: str, seed: int, scale: float = 1.0, max_n_quick=14, max_n_thoroug
         if corpus:
             for s in range(8):
                 specs.append(("corpus", s, 8, max(10, int(100 * scale))))
+            for s in range(4):
+                specs.append(("srcshape", seed, s, max(20, int(150 * scale))))
     else:
         for n in (1, 2, 3, 4):
             specs.append(("enum", n, 0, 1, 1, 0))
@@ -49,6 +51,8 @@ def plan(tier: str, seed: int, scale: float = 1.0, max_n_quick=14, max_n_thoroug
         if corpus:
             for s in range(16):
                 specs.append(("corpus", s, 16, 10**9))
+            for s in range(16):
+                specs.append(("srcshape", seed, s, max(50, int(1500 * scale))))
     return specs
 
 
@@ -115,6 +119,37 @@ def iterate(spec, visit):
                 continue
             n += 1
             visit(g, gg.restyle(g, "bytecode"), "corpus")
+    elif kind == "srcshape":
+        # CFG shapes the source front end really produces (library front end
+        # used as a generator of shapes only; graphs that are not closed CFGs
+        # are the front end's business - C07/C08 - and are skipped here)
+        from numba_scfg.core.datastructures.ast_transforms import AST2SCFG
+
+        from . import gen_programs as gp
+
+        _, seed, shard, examples = spec
+
+        @hseed(h64(("srcshape", seed, shard)))
+        @settings(max_examples=examples, database=None, deadline=None, phases=[Phase.generate], suppress_health_check=list(HealthCheck))
+        @given(src=gp.programs(max_depth=4))
+        def t2(src):
+            try:
+                scfg = AST2SCFG(src)
+            except Exception:
+                return
+            named = {k: tuple(b._jump_targets) for k, b in scfg.graph.items()}
+            tg = {t for v in named.values() for t in v}
+            heads = [k for k in named if k not in tg]
+            if len(heads) != 1 or any(t not in named for t in tg):
+                return
+            order = [heads[0]] + [k for k in named if k != heads[0]]
+            idx = {k: i for i, k in enumerate(order)}
+            intg = {idx[k]: tuple(idx[t] for t in named[k]) for k in order}
+            if not gg.is_closed(intg):
+                return
+            visit(intg, {k: named[k] for k in order}, "srcshape")
+
+        t2()
     else:
         raise ValueError(kind)
 
